@@ -1271,7 +1271,8 @@ func (c *codecV2) DecodeBucketKeys(keys [][]byte) ([][]byte, error) {
 
 		if i == 0 && bytes.Compare(k, c.prefix) < 0 {
 			ks = append(ks, []byte{})
-		} else if i == len(keys)-1 && (len(k) == 0 || bytes.Compare(k, c.endKey) >= 0) {
+		} else if i == len(keys)-1 && (len(k) == 0 || bytes.Compare(k, c.endKey) >= 0 ||
+			(!bytes.HasPrefix(k, c.prefix) && bytes.Compare(k, c.prefix) > 0)) {
 			ks = append(ks, []byte{})
 		} else if bytes.HasPrefix(k, c.prefix) {
 			raw := k[len(c.prefix):]
